@@ -15,6 +15,11 @@ fn cases(ob: &str) -> Vec<String> {
         out.push(format!("deep:{}:{}:200000", name, crate::hex(unit.as_bytes())));
     }
     out.push("nest100:".into());
+    // numeric edge cases around the float scaling table (exponent magnitudes 307..311, 616..618) and digit-count limits
+    for e in [307i32, 308, 309, 310, 311, 616, 617, 618, 1000] { for m in ["1", "0", "2.5", "123456789012345678901234567890", "0.000001"] { for sg in ["", "-"] {
+        out.push(format!("bytes:{}", crate::hex(format!("{}e{}{}", m, sg, e).as_bytes())));
+        out.push(format!("bytes:{}", crate::hex(format!("(1 #u8({}e{}{}) . '#d{}e{}{})", m, sg, e, m, sg, e).as_bytes())));
+    } } }
     // short inputs over a token alphabet, all three sources, both dialects
     let alpha: Vec<&[u8]> = vec![b"(", b")", b"[", b"]", b"#", b"\\", b"\"", b"'", b",@", b".", b"+", b"-", b"1", b"e", b"x", b":", b"?", b";", b" ", b"\n", b"\xc3", b"\xa9", b"\xf0", b"u8", b"t", b"nil", b"|", b"%"];
     for a in &alpha { for b in &alpha { for c in &alpha {
